@@ -13,6 +13,12 @@ Histories (see "provenance and histories" below): the structures reach the entry
 (fresh / derived / copied / edited in place after reads / used before), configuration objects (OverSamplingUniform,
 OverSamplingDataset, image_mesh.Overlay, SimulatorImaging, the PSF, image_mesh.Hilbert) are SHARED by the two runs.
 All inputs are dyadic multiples of the pixel scale, so every double operation of the implementation is exact.
+Hardening (phase 4): input KINDS (Python ints / floats, numpy float64 / float32 scalars, lists, float / integer ndarrays for pixel
+scales, origins, points; typed mask arrays; float32 / integer / list grid and array values; user subclasses of Mask2D / Grid2D /
+Array2D, Kernel2D as an Array2D) chosen independently for the two runs; every shared configuration object and every shared DEFAULT
+argument object of the library is fingerprinted before / after; inexact (non-dyadic) overlay / rectangular-mesh cases are checked
+with a tolerance instead of being dropped; far origins, larger frames; sibling entry points: constructor classmethods, methods that
+rebuild a frame, the util layer on plain arrays, Kernel2D / VectorYX2D, mesh.Rectangular.mapper_grids_from, the 1-D variants.
 """
 import random
 import numpy as np
@@ -36,7 +42,8 @@ RULE = ("masks of shape 1x1..7x8, 6% up to 21x20 (mostly non-square; styles: ran
         "mask of an Array2D / Grid2D (also after arithmetic, native storage), copy / deepcopy / pickle, in-place edits after every "
         "property was read, inverted, mask of a masked dataset, derive_mask.edge/border, already used; datasets fresh or derived; "
         "12% of the cases under general.structures.native_binned_only=True, radial projections also with "
-        "general.grid.remove_projected_centre=True. Non-trivial = at least 2 unmasked pixels and o+d != 0; distinct = distinct JSON input.")
+        "general.grid.remove_projected_centre=True. Input kinds (float / int / numpy scalar / float32 / list / ndarray; typed mask arrays; "
+        "user subclasses) independently per run; 10% of the origins / translations up to 1000 pixels away. Non-trivial = at least 2 unmasked pixels and o+d != 0; distinct = distinct JSON input.")
 TRUSTED = ["hand-written Gallina model coq/Model/C12.v (util layer + origin plumbing of every call site), tied to /repo by this run: "
            "exact rational comparison inside Coq (vm_compute) at both origins, plus the metamorphic relation on the implementation",
            "blurring, resized and rescaled masks are functions of the boolean mask array only (their values are taken from the "
@@ -846,7 +853,7 @@ def op_rect_mapper(aa, m, ps, o, dd, prm):
     """MapperRectangular on the (translated) unmasked grid of the mask, mesh = Mesh2DRectangular.overlay_grid"""
     sy, sx = prm["shape"]; buf = prm["buffer"]
     via_mesh = prm.get("via_mesh")
-    if via_mesh: sy, sx = max(sy, 3), max(sx, 3)                    # (mesh.Rectangular wants at least 3 x 3)
+    if via_mesh: sy, sx = prm["mesh_shape"]                          # (mesh.Rectangular wants at least 3 x 3; odd shapes: fewer exact ties)
     if via_mesh: buf = F(1, 10 ** 8)          # mesh.Rectangular.mesh_grid_from uses overlay_grid's default buffer
     mask = mk_mask(aa, m, ps, o)
     grid = mk_grid(aa, mask)
@@ -1267,7 +1274,7 @@ PARAMS = {
     "pixel_coords": lambda rng, m, ps: {"pts": pts_for(rng, m, ps), "pix": [(F(rng.randint(-8, 40), 4), F(rng.randint(-8, 40), 4)) for _ in range(4)]},
     "pixel_grids": lambda rng, m, ps: {"pts": pts_for(rng, m, ps)},
     "scaled_of_pixels": lambda rng, m, ps: {"pix": [(F(rng.randint(-8, 40), 4), F(rng.randint(-8, 40), 4)) for _ in range(5)]},
-    "rect_mapper": lambda rng, m, ps: {"shape": (span_shape(rng, m, 0), span_shape(rng, m, 1)), "via_mesh": rng.random() < 0.5,
+    "rect_mapper": lambda rng, m, ps: {"shape": (span_shape(rng, m, 0), span_shape(rng, m, 1)), "via_mesh": rng.random() < 0.3, "mesh_shape": (rng.choice([3, 5, 7]), rng.choice([3, 4, 5, 7])),
                                        "buffer": min(ps) / 2 if rng.random() < 0.85 else F(1, rng.choice([2, 16, 1024]))},
     "ds_apply_mask": lambda rng, m, ps: {"vals": vals(rng, m), "psf": rng.random() < 0.3 and ps[0] == ps[1]},
     "ds_noise_scaling": lambda rng, m, ps: {"vals": vals(rng, m), "plain": rng.random() < 0.6},
